@@ -67,6 +67,128 @@ def thread_world(rng):
     return [tuple(x) for x in items], root
 
 
+def pub_world(rng):
+    """one JSON document of real ActivityPub objects, everything embedded and without ids (nothing is fetched), plus the abstract
+    world it denotes: item codes post 1000+N, actor 2000+N, activity 2000 + target code, failure 999"""
+    import jsongen
+    counters = {"p": 0, "a": 0}
+    items = {}      # code -> dict(parent, links, creators, recipients, actor, media, pfp, banner)
+
+    def blank():
+        return {"parent": -1, "links": [], "creators": None, "recipients": None, "actor": -1, "media": None, "pfp": None, "banner": None}
+
+    def actor():
+        counters["a"] += 1
+        n = counters["a"]
+        d = {"type": rng.choice(["Person", "Person", "Group", "Service"]), "name": "a%d" % n}
+        it = blank()
+        if rng.random() < 0.6:
+            u = "https://m.example/a%d-icon.png" % n
+            d["icon"] = rng.choice([{"type": "Image", "url": u}, {"type": "Image", "url": u, "mediaType": "image/png"}, [{"type": "Image", "url": u}]])
+            it["pfp"] = u
+        if rng.random() < 0.5:
+            u = "https://m.example/a%d banner.png?x=1&y=$(id)" % n
+            d["image"] = {"type": "Image", "url": u}
+            it["banner"] = u.replace(" ", "%20")
+        items[2000 + n] = it
+        return d, 2000 + n
+
+    def actors(maxn):
+        r = rng.random()
+        if r < 0.25:
+            return None, None
+        k = 1 if r < 0.6 else rng.randint(2, maxn)
+        docs, codes = [], []
+        for _ in range(k):
+            if rng.random() < 0.08:
+                docs.append("gopher://dead.invalid/actor")
+                codes.append(999)
+            else:
+                d, c = actor()
+                docs.append(d)
+                codes.append(c)
+        return (docs[0] if k == 1 and rng.random() < 0.5 else docs), codes
+
+    def post(depth):
+        counters["p"] += 1
+        n = counters["p"]
+        kind = rng.choice(["Note", "Note", "Article", "Video", "Image", "Audio", "Page"])
+        d = {"type": kind, "name": "p%d" % n, "content": "x"}
+        it = blank()
+        docs, codes = actors(3)
+        it["creators"] = codes or []
+        if docs is not None:
+            d["attributedTo"] = docs
+        docs, codes = actors(4)
+        it["recipients"] = codes or []
+        if docs is not None:
+            d["audience"] = docs
+        if rng.random() < 0.6:
+            u = "https://m.example/p%d-media.%s" % (n, rng.choice(["mp4", "png", "ogg"]))
+            form = rng.randrange(3)
+            d["url"] = [u, {"type": "Link", "href": u}, [{"type": "Link", "href": u, "mediaType": kind.lower() + "/x-any"}]][form]
+            # (the string shorthand never yields a link on this tree: getLinksShorthand hands NewLink an object.Object, which
+            # fails its map[string]any assertion - see DESIGN, other observations)
+            it["media"] = u if form else None
+        atts = []
+        for j in range(rng.choice((0, 0, 1, 2, 3))):
+            u = "https://m.example/p%d-att%d" % (n, j)
+            atts.append({"type": "Document", "url": u, "name": "attachment %d" % j})
+            it["links"].append(u)
+        if atts:
+            d["attachment"] = atts
+        code = 1000 + n
+        items[code] = it
+        if depth > 0 and rng.random() < 0.6:
+            pd, pc = post(depth - 1)
+            d["inReplyTo"] = pd
+            it["parent"] = pc
+        return d, code
+
+    r = rng.random()
+    if r < 0.5:
+        doc, root = post(rng.choice((0, 1, 3)))
+        ctor = 0
+    elif r < 0.8:
+        pd, pc = post(rng.choice((0, 2)))
+        ad, ac = actor()
+        doc = {"type": rng.choice(["Announce", "Create", "Like", "Dislike"]), "actor": ad, "object": pd}
+        root = 2000 + pc
+        it = dict(items[pc])
+        it["actor"] = ac
+        items[root] = it
+        ctor = 2
+    else:
+        doc, root = actor()
+        ctor = 1
+    if 999 in {c for it in items.values() for c in (it["creators"] or []) + (it["recipients"] or [])}:
+        items[999] = blank()
+    return jsongen.to_text(doc), ctor, items, root
+
+
+def uipub_case(rng, keys, preload=2, width=60, height=20, feeds=None):
+    text, ctor, items, root = pub_world(rng)
+    toks = [preload, width, height] + text_tokens(text) + [ctor, len(items)]
+    for code, it in items.items():
+        toks += [code, it["parent"], len(it["links"])]
+        for l in it["links"]:
+            toks += text_tokens(l)
+        for key in ("creators", "recipients"):
+            toks += [-1] if it[key] is None else [len(it[key])] + it[key]
+        toks.append(it["actor"])
+        for key in ("media", "pfp", "banner"):
+            toks += [0] if it[key] is None else [1] + text_tokens(it[key])
+    toks.append(root)
+    feeds = feeds or {}
+    toks.append(len(feeds))
+    for name, inputs in feeds.items():
+        toks += text_tokens(name) + [len(inputs)]
+        for i in inputs:
+            toks += text_tokens(i)
+    toks += keys
+    return Case("uipub", toks, {"json": text[:3000], "ctor": ctor, "root": root, "keys": keys, "items": {str(k): v for k, v in items.items()}})
+
+
 def rand_keys(rng, n):
     keys = []
     for _ in range(n):
@@ -108,9 +230,14 @@ class C07(Spec):
             "held at a gate so that keys arrive while loads are in flight. After every key (once loads have settled, or with the gate "
             "closed) mode, buffer, current page, highlighted item, extent of the loaded window, loading flags, number of frames "
             "emitted and the height of the last frame are compared with Ui.update/run_task. Exhaustive: all sequences of length <= 3 "
-            "over 12 representative keys on one world. non-trivial = the sequence opened a second page and moved the cursor.")
-    assumptions = ["items are harness-defined pub.Tangible/pub.Container values (pub's own types are exercised by the item checks); the keys "
-                   "c r a o p b act only on pub's concrete types and are no-ops here",
+            "over 12 representative keys on one world. REAL ITEMS: posts, actors and activities built by pub's own constructors from one "
+            "JSON document (authors, recipients, reply parents, media links, attachments, icons and banners embedded; nothing is "
+            "fetched), driven with c r a o p b (and the other keys): page, highlighted item (post / actor / activity / error item, "
+            "identified by its name), mode and the link the configured media hook RECEIVED (recorded by the hook program) equal "
+            "the model after every key. non-trivial = the sequence opened a second page and moved the cursor.")
+    assumptions = ["the thread/history runs use harness-defined pub.Tangible/pub.Container values; the runs over pub's own types have no "
+                   "replies (a reply must be fetched from its parent's id) and their frames, which contain clock- and library-made text, "
+                   "are compared by line count only",
                    "'.' and ':open' go through the real pub.New / FetchUserInput on references that fail without network (error item pages)",
                    "goroutine completions are serialised by waiting for quiescence after each key; arbitrary interleavings are C08's subject"]
 
@@ -167,12 +294,32 @@ class C07(Spec):
             cases.append(ui_case(w, keys, preload=rng.choice((0, 1, 2, 2, 3)), width=rng.choice((60, 30, 10)), height=rng.choice((20, 10, 3, 2)), feeds=feeds))
         b = Batch("c07", cases, config=cfg, env=env, timeout=1200, correspondence="ui.State.Update == Ui.update / run_task")
         b.parallel = False
-        runner.run_batches(self, scratch, binary, [b], report)
+        # the keys that act on pub's concrete types (c r a o p b), on real posts, actors and activities
+        pcases = []
+        for _ in range(150 if tier == "quick" else 5000):
+            keys = []
+            for _ in range(rng.randint(3, 14)):
+                r = rng.random()
+                if r < 0.55:
+                    keys.append(ord(rng.choice("ccrraaopb")))
+                elif r < 0.75:
+                    keys.append(ord(rng.choice("jkg hl")))
+                elif r < 0.9:
+                    keys += [ord(rng.choice("123")), rng.choice((13, 46, 27))]
+                else:
+                    keys.append(ord(rng.choice("hhl")))
+            pcases.append(uipub_case(rng, keys, preload=rng.choice((0, 1, 2)), feeds=feeds))
+        pb = Batch("c07-pub", pcases, config=cfg, env=env, timeout=1200,
+                   correspondence="ui.State.Update over real pub.Post/Actor/Activity items == Ui.update (creators, recipients, actor, media hooks)")
+        pb.parallel = False
+        runner.run_batches(self, scratch, binary, [b, pb], report)
         report.extra["exhaustive"] = True
         report.extra["exhaustive_scope"] = "all key sequences of length <= %d over 12 representative keys on one world" % maxlen
 
     def shrink(self, case):
         m = case.meta
+        if case.op != "ui":
+            return
         keys = [k if isinstance(k, int) else tuple(k) for k in m["keys"]]
         n = len(keys)
         for size in (n // 2, n // 4, 1):
@@ -184,6 +331,8 @@ class C07(Spec):
                     yield ui_case(([tuple(x) for x in m["items"]], m["root"]), cand, preload=m["preload"], width=m["width"], height=m["height"], feeds=m["feeds"])
 
     def nontrivial(self, case, res):
+        if case.op == "uipub":
+            return any(k in case.meta["keys"] for k in (99, 114, 97)) and len(case.meta["items"]) >= 3
         ks = [k for k in case.meta["keys"] if isinstance(k, int)]
         return (32 in ks or 46 in ks) and (106 in ks or 107 in ks)
 
